@@ -9,7 +9,7 @@ From GIV.Lib Require Import Regex Str.
 From GIV.Lib Require Import Backtrack.
 From GIV.Gen Require Import BlockRegex.
 From GIV.Model Require Import C02 C10 C11 C10B C11B.
-From GIV.Proofs Require Import C10 C11 C11B.
+From GIV.Proofs Require Import C10 C11 C11B C11E.
 Import ListNotations.
 
 (* every diagnostic is counted whether or not it is displayed, so a warnings-as-errors run fails
@@ -72,3 +72,17 @@ Proof.
   - intros ce H. vm_compute in H. injection H as <-. vm_compute. reflexivity.
   - vm_compute. reflexivity.
 Qed.
+
+(* Nowhere does the parser dereference a failed match: the three patterns whose result it uses without a test (INDENTATION_RE on
+   every line, TAG_VALUE_VERSION_RE and TAG_VALUE_STABILITY_RE on the text of Since/Deprecated/Stability tags) match every text
+   that can reach them, so the model's "CPython would raise here" flag is never set - for every comment text whatsoever.
+   (Proofs/C11E.v: total_on_lines is a verified sufficient condition, evaluated on the patterns as regenerated from the source;
+   the correspondence compares the flag with exceptions actually raised.) *)
+Theorem C11_model_never_raises : forall comment lineno, o_exc (parse_block comment lineno) = false.
+Proof. exact parse_block_never_raises. Qed.
+Print Assumptions C11_model_never_raises.
+
+Theorem C11_unguarded_patterns_total : forall x, no_lf x ->
+  bmatch re_indent x <> None /\ bmatch re_tagver x <> None /\ bmatch re_tagstab x <> None.
+Proof. exact unguarded_patterns_total. Qed.
+Print Assumptions C11_unguarded_patterns_total.
